@@ -1,0 +1,168 @@
+//go:build verif
+
+// Contracts for govc (contract-based deductive verification); comments only.
+package resource_share
+
+//@ constglobal AllResources
+
+// ---- spec functions --------------------------------------------------------
+// cmpq: comparison of two quantities where -1 means "unlimited" (the property text: "-1 unlimited").
+//@ define cmpq(a real, b real) int = ite(a == -1.0, ite(b == -1.0, 0, 1), ite(b == -1.0, 0 - 1, ite(a > b, 1, ite(a < b, 0 - 1, 0))))
+//@ define leq(a real, b real) bool = cmpq(a, b) <= 0
+//@ define rqLeq(a ResourceQuantities, b ResourceQuantities) bool = leq(a["CPU"], b["CPU"]) && leq(a["Memory"], b["Memory"]) && leq(a["GPU"], b["GPU"])
+//@ define requestable(s *ResourceShare) real = ite(s.MaxAllowed == -1.0, s.Request, min(s.MaxAllowed, s.Request))
+//@ define allocatable(s *ResourceShare) real = ite(s.Deserved == -1.0, s.MaxAllowed, ite(s.MaxAllowed != -1.0, min(s.MaxAllowed, max(s.Deserved, s.FairShare)), max(s.Deserved, s.FairShare)))
+// cache coherence of the two memoised quantity maps
+//@ define cacheOK(q *QueueResourceShare) bool = (q.lastDeservedShare != nil ==> q.lastDeservedShare["CPU"] == q.CPU.Deserved && q.lastDeservedShare["Memory"] == q.Memory.Deserved && q.lastDeservedShare["GPU"] == q.GPU.Deserved) && (q.lastFairShare != nil ==> q.lastFairShare["CPU"] == q.CPU.FairShare && q.lastFairShare["Memory"] == q.Memory.FairShare && q.lastFairShare["GPU"] == q.GPU.FairShare)
+
+//@ func compareQuantities
+//@   props C07 C08
+//@   pure
+//@   ensures result == cmpq(quantity, other)
+//@ end
+
+//@ func NewResourceQuantities
+//@   props C07 C08
+//@   fresh
+//@   ensures result["CPU"] == cpuQty && result["Memory"] == memoryQty && result["GPU"] == gpuQty
+//@ end
+
+//@ func (ResourceQuantities).LessEqual
+//@   props C07 C08
+//@   pure
+//@   loop 1 unroll 3
+//@   ensures result == rqLeq(rq, other)
+//@ end
+
+//@ func (ResourceQuantities).Less
+//@   props C07
+//@   pure
+//@   loop 1 unroll 3
+//@   ensures result == (rq["CPU"] < other["CPU"] && rq["Memory"] < other["Memory"] && rq["GPU"] < other["GPU"])
+//@ end
+
+//@ func (ResourceQuantities).LessInAtLeastOneResource
+//@   props C07
+//@   pure
+//@   ensures result == !rqLeq(other, rq)
+//@ end
+
+//@ func (ResourceQuantities).Add
+//@   props C07 C08
+//@   requires rq != nil
+//@   modifies rq[*]
+//@   loop 1 unroll 3
+//@   ensures rq["CPU"] == old(rq["CPU"]) + old(other["CPU"])
+//@   ensures rq["Memory"] == old(rq["Memory"]) + old(other["Memory"])
+//@   ensures rq["GPU"] == old(rq["GPU"]) + old(other["GPU"])
+//@ end
+
+//@ func (ResourceQuantities).Sub
+//@   props C07
+//@   requires rq != nil
+//@   modifies rq[*]
+//@   loop 1 unroll 3
+//@   ensures rq["CPU"] == old(rq["CPU"]) - old(other["CPU"])
+//@   ensures rq["Memory"] == old(rq["Memory"]) - old(other["Memory"])
+//@   ensures rq["GPU"] == old(rq["GPU"]) - old(other["GPU"])
+//@ end
+
+//@ func (*ResourceShare).GetRequestableShare
+//@   props C07 C09
+//@   requires rs != nil
+//@   pure
+//@   ensures result == requestable(rs)
+//@ end
+
+//@ func (*ResourceShare).GetAllocatableShare
+//@   props C07
+//@   requires rs != nil
+//@   pure
+//@   ensures result == allocatable(rs)
+//@ end
+
+//@ func (*QueueResourceShare).ResourceShare
+//@   props C07 C08 C09
+//@   requires qrs != nil
+//@   inline
+//@ end
+
+//@ func (*QueueResourceShare).buildResourceQuantities
+//@   inline
+//@   loop 1 unroll 3
+//@ end
+
+//@ func (*QueueResourceShare).GetAllocatableShare
+//@   props C07
+//@   requires qrs != nil
+//@   fresh
+//@   ensures result["CPU"] == allocatable(qrs.CPU) && result["Memory"] == allocatable(qrs.Memory) && result["GPU"] == allocatable(qrs.GPU)
+//@ end
+
+//@ func (*QueueResourceShare).GetAllocatedShare
+//@   props C07 C08
+//@   requires qrs != nil
+//@   fresh
+//@   ensures result["CPU"] == qrs.CPU.Allocated && result["Memory"] == qrs.Memory.Allocated && result["GPU"] == qrs.GPU.Allocated
+//@ end
+
+//@ func (*QueueResourceShare).GetAllocatedNonPreemptible
+//@   props C07 C08
+//@   requires qrs != nil
+//@   fresh
+//@   ensures result["CPU"] == qrs.CPU.AllocatedNotPreemptible && result["Memory"] == qrs.Memory.AllocatedNotPreemptible && result["GPU"] == qrs.GPU.AllocatedNotPreemptible
+//@ end
+
+//@ func (*QueueResourceShare).GetMaxAllowedShare
+//@   props C08
+//@   requires qrs != nil
+//@   fresh
+//@   ensures result["CPU"] == qrs.CPU.MaxAllowed && result["Memory"] == qrs.Memory.MaxAllowed && result["GPU"] == qrs.GPU.MaxAllowed
+//@ end
+
+//@ func (*QueueResourceShare).GetRequestableShare
+//@   props C07 C09
+//@   requires qrs != nil
+//@   fresh
+//@   ensures result["CPU"] == requestable(qrs.CPU) && result["Memory"] == requestable(qrs.Memory) && result["GPU"] == requestable(qrs.GPU)
+//@ end
+
+//@ func (*QueueResourceShare).GetDeservedShare
+//@   props C07 C08
+//@   requires qrs != nil && cacheOK(qrs)
+//@   modifies qrs.lastDeservedShare
+//@   ensures result != nil && result == qrs.lastDeservedShare
+//@   ensures result["CPU"] == qrs.CPU.Deserved && result["Memory"] == qrs.Memory.Deserved && result["GPU"] == qrs.GPU.Deserved
+//@   ensures cacheOK(qrs)
+//@   ensures [cacheKeptOrNew] qrs.lastDeservedShare == old(qrs.lastDeservedShare) || fresh(qrs.lastDeservedShare)
+//@ end
+
+//@ func (*QueueResourceShare).GetFairShare
+//@   props C07 C09
+//@   requires qrs != nil && cacheOK(qrs)
+//@   modifies qrs.lastFairShare
+//@   ensures result != nil && result == qrs.lastFairShare
+//@   ensures result["CPU"] == qrs.CPU.FairShare && result["Memory"] == qrs.Memory.FairShare && result["GPU"] == qrs.GPU.FairShare
+//@   ensures cacheOK(qrs)
+//@   ensures [cacheKeptOrNew] qrs.lastFairShare == old(qrs.lastFairShare) || fresh(qrs.lastFairShare)
+//@ end
+
+//@ func (*QueueResourceShare).AddResourceShare
+//@   props C09
+//@   requires qrs != nil && cacheOK(qrs)
+//@   requires resource == "CPU" || resource == "Memory" || resource == "GPU"
+//@   modifies qrs.lastFairShare, qrs.CPU.FairShare, qrs.Memory.FairShare, qrs.GPU.FairShare
+//@   ensures qrs.CPU.FairShare == old(qrs.CPU.FairShare) + ite(resource == "CPU", amount, 0.0)
+//@   ensures qrs.Memory.FairShare == old(qrs.Memory.FairShare) + ite(resource == "Memory", amount, 0.0)
+//@   ensures qrs.GPU.FairShare == old(qrs.GPU.FairShare) + ite(resource == "GPU", amount, 0.0)
+//@   ensures cacheOK(qrs)
+//@ end
+
+//@ func (*QueueResourceShare).SetQuotaResources
+//@   props C09 C08
+//@   requires qrs != nil && cacheOK(qrs)
+//@   requires resource == "CPU" || resource == "Memory" || resource == "GPU"
+//@   modifies qrs.lastDeservedShare, qrs.ResourceShare(resource).Deserved, qrs.ResourceShare(resource).MaxAllowed, qrs.ResourceShare(resource).OverQuotaWeight
+//@   ensures cacheOK(qrs)
+//@   ensures qrs.ResourceShare(resource).Deserved == deserved && qrs.ResourceShare(resource).MaxAllowed == maxAllowed && qrs.ResourceShare(resource).OverQuotaWeight == overQuotaWeight
+//@ end
